@@ -502,5 +502,110 @@ fn run(ctx: &mut Ctx, twin: bool) {
                 ctx.sample(|| json!({"sql": sql, "table_rows": rows.len(), "columnar_path_taken": used_columnar}));
             }
         }
+        if !twin {
+            join_family(ctx, case, &mut rng);
+        }
+    }
+}
+
+/// C07 over a join: both sides have the same column names, so every aggregate argument is a
+/// qualified reference (x.a vs y.a) and aggregates over either side appear in one select list.
+fn join_family(ctx: &mut Ctx, case: u64, rng: &mut Rng) {
+    type R = (i64, Option<i64>, Option<i64>);
+    let gen = |rng: &mut Rng, n: i64| -> Vec<R> {
+        (1..=n).map(|id| (id, if rng.chance(1, 6) { None } else { Some(rng.range(-3, 9)) }, if rng.chance(1, 6) { None } else { Some(rng.range(0, 3)) })).collect()
+    };
+    let (nx, ny) = (rng.range(0, 9), rng.range(0, 9));
+    let (tx, ty) = (gen(rng, nx), gen(rng, ny));
+    let mut s = Session::new();
+    s.record = false;
+    s.must("CREATE TABLE jx (id INTEGER, a INTEGER, b INTEGER)");
+    s.must("CREATE TABLE jy (id INTEGER, a INTEGER, b INTEGER)");
+    let lit = |v: Option<i64>| v.map_or("NULL".to_string(), |i| i.to_string());
+    for (t, rows) in [("jx", &tx), ("jy", &ty)] {
+        for r in rows.iter() {
+            s.must(&format!("INSERT INTO {} SELECT {}, {}, {}", t, r.0, lit(r.1), lit(r.2)));
+        }
+    }
+    s.record = true;
+    for _ in 0..4 {
+        let on = *rng.pick(&["x.id = y.id", "x.b = y.b", "x.id = y.b"]);
+        let joined: Vec<(&R, &R)> = tx
+            .iter()
+            .flat_map(|x| ty.iter().map(move |y| (x, y)))
+            .filter(|(x, y)| match on {
+                "x.id = y.id" => x.0 == y.0,
+                "x.b = y.b" => x.2.is_some() && x.2 == y.2,
+                _ => Some(x.0) == y.2,
+            })
+            .collect();
+        // aggregate list: (sql, side, column, function)
+        let pool = [("SUM", 'x', 'a'), ("SUM", 'y', 'a'), ("COUNT", 'x', 'a'), ("COUNT", 'y', 'a'), ("MIN", 'x', 'a'), ("MAX", 'y', 'a'), ("SUM", 'x', 'b'), ("SUM", 'y', 'b'), ("MAX", 'x', 'b'), ("MIN", 'y', 'b')];
+        let k = rng.range(2, 5) as usize;
+        let aggs: Vec<(&str, char, char)> = (0..k).map(|_| *rng.pick(&pool)).collect();
+        let grouped = rng.chance(1, 2);
+        let gcol = *rng.pick(&["x.b", "y.b"]);
+        let list: Vec<String> = aggs.iter().map(|(f, s, c)| format!("{}({}.{})", f, s, c)).collect();
+        let sql = if grouped {
+            format!("SELECT {}, {}, COUNT(*) FROM jx AS x INNER JOIN jy AS y ON {} GROUP BY {}", gcol, list.join(", "), on, gcol)
+        } else {
+            format!("SELECT {}, COUNT(*) FROM jx AS x INNER JOIN jy AS y ON {}", list.join(", "), on)
+        };
+        let val = |p: &(&R, &R), s: char, c: char| -> Option<i64> {
+            let r = if s == 'x' { p.0 } else { p.1 };
+            if c == 'a' { r.1 } else { r.2 }
+        };
+        let agg = |rows: &[&(&R, &R)], f: &str, s: char, c: char| -> Canon {
+            let v: Vec<i64> = rows.iter().filter_map(|p| val(p, s, c)).collect();
+            match f {
+                "COUNT" => Canon::Int(v.len() as i128),
+                _ if v.is_empty() => Canon::Null,
+                "SUM" => Canon::Int(v.iter().map(|x| *x as i128).sum()),
+                "MIN" => Canon::Int(*v.iter().min().unwrap() as i128),
+                _ => Canon::Int(*v.iter().max().unwrap() as i128),
+            }
+        };
+        let mut want: Vec<CRow> = vec![];
+        if grouped {
+            let mut groups: BTreeMap<Option<i64>, Vec<&(&R, &R)>> = BTreeMap::new();
+            for p in joined.iter() {
+                let g = if gcol == "x.b" { p.0 .2 } else { p.1 .2 };
+                groups.entry(g).or_default().push(p);
+            }
+            for (g, rows) in groups {
+                let mut row = vec![g.map_or(Canon::Null, |i| Canon::Int(i as i128))];
+                row.extend(aggs.iter().map(|(f, s, c)| agg(&rows, f, *s, *c)));
+                row.push(Canon::Int(rows.len() as i128));
+                want.push(row);
+            }
+        } else {
+            let all: Vec<&(&R, &R)> = joined.iter().collect();
+            let mut row: CRow = aggs.iter().map(|(f, s, c)| agg(&all, f, *s, *c)).collect();
+            row.push(Canon::Int(all.len() as i128));
+            want.push(row);
+        }
+        ctx.eval();
+        match s.exec(&sql) {
+            Outcome::Panic(p) => ctx.violation(case, format!("panic:join-aggregate:{}", panic_class(&p)), json!({"sql": sql, "panic": p})),
+            Outcome::Rows(got) => {
+                if !multiset_eq(&got, &want, 1e-9) {
+                    let both_sides = aggs.iter().any(|a| a.1 == 'x') && aggs.iter().any(|a| a.1 == 'y');
+                    ctx.violation(
+                        case,
+                        format!("differs-from-definition:join-aggregate|{}|{}", if grouped { "grouped" } else { "global" }, if both_sides { "both-sides" } else { "one-side" }),
+                        json!({"sql": sql, "engine": show_rows(&got, 10), "definition": show_rows(&want, 10), "jx": format!("{:?}", tx), "jy": format!("{:?}", ty)}),
+                    );
+                } else {
+                    ctx.nontrivial(format!("join-aggregate|{}|{}|rows{}", if grouped { "grouped" } else { "global" }, on, joined.len().min(3)));
+                }
+            }
+            Outcome::Err(e) => {
+                ctx.count("engine_error", 1);
+                if ctx.notes.len() < 3 {
+                    ctx.notes.push(format!("join aggregate rejected: {} -> {}", crate::core::util::trunc(&sql, 100), crate::core::util::trunc(&e, 80)));
+                }
+            }
+            _ => {}
+        }
     }
 }
